@@ -207,8 +207,13 @@ def once_only(ctx) -> None:
     masks = [s for s in graph.statements() if isinstance(s, ast.Assign) and core.src(s.targets[0]) == 'mask']
     okm = len(masks) == 1 and isinstance(masks[0].value, ast.IfExp) and core.src(masks[0].value.test) in ('traversal.pivot == tail', 'tail == traversal.pivot') and core.src(masks[0].value.body) == 'unseen_trained' and core.src(masks[0].value.orelse) == 'unseen'
     ctx.check(okm, 'C01.once', trav, 'beyond the segment tail only (unseen) trained subscribers are followed, inside the segment every unseen subscriber', masks[0] if masks else trav.node, key='mask:tail')
-    ut = each.nested('unseen_trained')
-    ctx.check(core.src(ut.body[-1]) == 'return unseen(node) and isinstance(node, atomic.Worker) and node.trained', 'C01.once', ut, 'tail mask = unseen and trained worker', ut.node, key='unseen_trained')
+    try:
+        ut = each.nested('unseen_trained')
+    except core.AnalysisError:
+        ctx.fail('C01.once', each, 'the tail mask helper is gone: beyond the segment tail exactly the (unseen) *trained* subscribers must still be followed, so that trainers fed by the tail are compiled', each.node, key='unseen_trained:vanished')
+        ut = None
+    if ut is not None:
+        ctx.check(core.src(ut.body[-1]) == 'return unseen(node) and isinstance(node, atomic.Worker) and node.trained', 'C01.once', ut, 'tail mask = unseen and trained worker', ut.node, key='unseen_trained')
     rec = [c for c in core.calls_in(loops[0]) if core.src(c.func) == 'traverse'] if loops else []
     ctx.check(len(rec) == 1 and core.src(rec[0].args[0]) == core.src(loops[0].target), 'C01.once', trav, 'the traversal descends into every (masked) subscriber', loops[0] if loops else trav.node, key='recursion')
     un = each.nested('unseen')
